@@ -400,7 +400,7 @@ def fix_upto(text):
     return ''.join(out)
 
 # ---------------------------------------------------------------- main pipeline
-def build_unit(spec, tier, workdir, repo_root=None, variant_defs=(), extra_defs=(), cex_mode=False, drop_loops=False):
+def build_unit(spec, tier, workdir, repo_root=None, variant_defs=(), extra_defs=(), cex_mode=False, drop_loops=False, unwind_all=None):
     """Overlay + goto-cc + goto-instrument. Returns dict(gb=path, cmds=[...], inserted=..., sources=[...])."""
     reg = registry()
     root = repo_root or REPO
@@ -573,6 +573,16 @@ def build_unit(spec, tier, workdir, repo_root=None, variant_defs=(), extra_defs=
                      ['goto-instrument', '--apply-loop-contracts', gbu, gbm]]
         if cex_mode or drop_loops:
             steps, gbm = [], gb0
+        if drop_loops and unwind_all and not cex_mode:
+            # bounded fallback of a legacy unit: the legacy --enforce-contract needs a loop-free body, so the loops of the
+            # (restructured) code are unwound by goto-instrument first; paths beyond the bound are cut (assumption), which
+            # can only lose refutations, never invent one
+            rcl, outl, errl, wl = run(['goto-instrument', '--show-loops', gb0], 120, 4, cwd=workdir)
+            lids = [l for l in re.findall(r'^Loop (\S+):', outl or '', flags=re.M) if not l.startswith('__CPROVER')]
+            if lids:
+                gbm = os.path.join(workdir, 'u.gb')
+                steps = [['goto-instrument', '--unwindset', ','.join('%s:%d' % (l, unwind_all) for l in lids),
+                          '--unwinding-assertions', gb0, gbm]]
         cmd2 = ['goto-instrument']
         if enforce and not cex_mode:
             cmd2 += ['--enforce-contract', enforce]
@@ -628,15 +638,17 @@ def parse_cbmc_json(out):
 
 def bounded_refutation(spec, tier, repo_root, variant, extra_defs, res, workdir):
     why = res['reason'][:300]
-    spec = dict(spec, instrument='dfcc')     # the legacy instrumentation cannot enforce a contract on a body with loops
+    k = spec.get('cex_unwind') or 6
+    legacy = spec['instrument'] != 'dfcc'
     try:
         # the refutation search may use the smaller capacities declared for counterexample search (@@cex)
+        # (a legacy unit stays legacy: its loops are unwound by goto-instrument before the contract is enforced)
         b = build_unit(spec, tier, workdir, repo_root, variant_defs=(variant[1] if variant else ()),
-                       extra_defs=list(extra_defs) + list(spec.get('cex_defines') or []), drop_loops=True)
+                       extra_defs=list(extra_defs) + list(spec.get('cex_defines') or []), drop_loops=True,
+                       unwind_all=(k if legacy else None))
     except Undecided as e:
         res['reason'] = why + ' | bounded fallback: ' + str(e)
         return res
-    k = spec.get('cex_unwind') or 6
     # bound the loops of the code under test only; the loops of the contract-instrumentation library are bounded by
     # constants and must run to completion (cutting them would silently cut every path)
     rc0, out0, err0, w0 = run(['cbmc', '--show-loops', b['gb']], 120, 4, cwd=workdir)
